@@ -79,7 +79,14 @@ def _atoms(g, c, pol):
 
 
 def _refusing(f):
-    return [(p, r) for p, r in f.return_sites() if f.return_literal(r) in ('false', 'nullopt', 'nullptr')]
+    out = [(p, r) for p, r in f.return_sites() if f.return_literal(r) in ('false', 'nullopt', 'nullptr')]
+    # the bison actions refuse with YYABORT = `goto yyabortlab`
+    for n in f.walk():
+        if n['k'] == 'GotoStmt' and n.get('label') == 'yyabortlab' and any(a['k'] == 'SwitchStmt' and f.strip(f.stmts[a['cond']]).get('name') == 'yyn' for a in f.ancestors(n)):
+            p = f.position_of(n)
+            if p is not None:
+                out.append((p, dict(n, txt='YYABORT')))
+    return out
 
 
 def _onerr_sites(f):
@@ -112,6 +119,15 @@ def _edge_callee(db, f, c, pol):
                     for d in s0.get('decls', []):
                         if d.get('did') == n.get('did') and 'init' in d:
                             return callee_of_value(f.stmts[d['init']])
+        if n['k'] in ('MemberExpr', 'CXXMemberCallExpr', 'CXXOperatorCallExpr') and n.get('txt'):
+            # `lhs = g(...); if (!lhs) refuse;` in the same block (bison: yylhs.value = Helper(...); if (!yylhs.value) YYABORT;)
+            blk = [a for a in f.ancestors(c) if a['k'] == 'CompoundStmt']
+            if blk:
+                for x in f.walk(blk[0]):
+                    if x['k'] in ('BinaryOperator', 'CXXOperatorCallExpr') and x.get('op') == '=' and x.get('line', 0) <= c.get('line', 0):
+                        kids = f.children(x) if x['k'] == 'BinaryOperator' else [f.stmts[a] for a in x.get('args', [])]
+                        if len(kids) == 2 and f.strip(kids[0]).get('txt') == n.get('txt') and not any(y is c for y in f.walk(x)):
+                            return callee_of_value(kids[1])
         return None
     if not pol:
         if c['k'] == 'CXXMemberCallExpr' and (c.get('cs') or '').split('::')[-1] in ('has_value', 'operator bool') and 'obj' in c:
@@ -157,13 +173,16 @@ def check(db, rep):
     _rest(db, rep)
 
 
-def loud_rule(db, rep, r1, classes, consequence, prefix='', defensive_variant_tests=False):
+def loud_rule(db, rep, r1, classes, consequence, prefix='', defensive_variant_tests=False, extra_fns=()):
     defensive = []
     fns = {}
     for cls in classes:
         for f in db.methods_of(cls):
             if f.has_cfg():
                 fns[f.name + '#' + f.mn] = f
+    for f in extra_fns:
+        if f.has_cfg():
+            fns[f.name + '#' + f.mn] = f
     # visitor dispatch helpers count as "all Vi* of the class"
     status = {}    # key -> list of (ret node, kind, detail)
     loud = {k: True for k in fns}
@@ -277,7 +296,7 @@ def loud_rule(db, rep, r1, classes, consequence, prefix='', defensive_variant_te
         seen_inst = {}
         for r, kind, why in sorted(details.get(k, []), key=lambda d: (d[0].get('line', 0), d[0].get('col', 0))):
             n_ret += 1
-            inst = '%s::%s@%s' % (f.cls.split('::')[-1], f.name.split('::')[-1], (r.get('txt', '') + '|' + ' '.join(c.get('txt', '')[:40] for c, pol in sorted(dominating_guards(f, f.position_of(r)), key=lambda g: (g[0].get('line', 0), g[0].get('col', 0)))[-1:]))[:70])
+            inst = '%s::%s@%s' % ((f.cls or 'detail').split('::')[-1], f.name.split('::')[-1], (r.get('txt', '') + '|' + ' '.join(c.get('txt', '')[:40] for c, pol in sorted(dominating_guards(f, f.position_of(r)), key=lambda g: (g[0].get('line', 0), g[0].get('col', 0)))[-1:]))[:70])
             seen_inst[inst] = seen_inst.get(inst, 0) + 1
             if seen_inst[inst] > 1:
                 inst += '#%d' % seen_inst[inst]
